@@ -60,6 +60,15 @@ type rRound struct {
 	Truncated bool `json:"truncated,omitempty"`
 	// ConcurrentHook registers one more EED hook from a second task while this round's response is delivered.
 	ConcurrentHook bool `json:"concurrent_hook,omitempty"`
+	// RaceHooks > 0: before the round that many goroutines register one message hook and one environment hook each
+	// at the same time; every one of them must be called from then on (a registration may not get lost).
+	RaceHooks int `json:"race_hooks,omitempty"`
+	// ErrTrue (until-err): the failing callback returns (true, err) instead of (false, err): it is an error all the
+	// same, and the rest of the response is consumed.
+	ErrTrue bool `json:"err_true,omitempty"`
+	// EmptyEOM: the end-of-message flag comes in a trailing packet without data (the last packet with data does
+	// not carry it).
+	EmptyEOM bool `json:"empty_eom,omitempty"`
 }
 
 type roundsPlan struct {
@@ -289,6 +298,8 @@ func genRounds(r *Rand, nRounds int, eedPct, envPct int, hooks bool) []rRound {
 		}
 		rd.Poll = rd.Mode != "manual" && r.Pct(25)
 		rd.ErrEOF = rd.Mode == "until-err" && r.Pct(30)
+		rd.ErrTrue = rd.Mode == "until-err" && r.Pct(20)
+		rd.EmptyEOM = r.Pct(12)
 		rd.Slow = !rd.Poll && r.Pct(8)
 		if !rd.Slow && !rd.Poll && r.Pct(8) {
 			rd.PauseAt = 1 + r.Intn(3)
@@ -301,11 +312,14 @@ func genRounds(r *Rand, nRounds int, eedPct, envPct int, hooks bool) []rRound {
 				rd.EEDHooks, rd.EnvHooks = r.Intn(2), r.Intn(2)
 			}
 			rd.ConcurrentHook = r.Pct(15)
+			if r.Pct(12) {
+				rd.RaceHooks = 2 + r.Intn(2)
+			}
 		}
 		rounds = append(rounds, rd)
 	}
 	if last := &rounds[len(rounds)-1]; last.Mode == "until-err" && len(last.Cuts) > 0 && !last.Poll && r.Pct(30) {
-		last.Truncated, last.StopAt, last.Slow = true, 0, false
+		last.Truncated, last.StopAt, last.Slow, last.EmptyEOM = true, 0, false, false
 	}
 	return rounds
 }
@@ -387,6 +401,15 @@ func shrinkRounds(p *roundsPlan) []interface{} {
 		if rd.ConcurrentHook {
 			mod(func(x *rRound) { x.ConcurrentHook = false })
 		}
+		if rd.RaceHooks > 0 {
+			mod(func(x *rRound) { x.RaceHooks = 0 })
+		}
+		if rd.ErrTrue {
+			mod(func(x *rRound) { x.ErrTrue = false })
+		}
+		if rd.EmptyEOM {
+			mod(func(x *rRound) { x.EmptyEOM = false })
+		}
 		if rd.EEDHooks > 0 {
 			mod(func(x *rRound) { x.EEDHooks-- })
 		}
@@ -452,6 +475,15 @@ func (rd *rRound) cbErr() error {
 	return errCallback
 }
 
+// roundPackets cuts a response into packets; with EmptyEOM the end-of-message flag comes in a trailing empty packet.
+func roundPackets(rd rRound, body []byte, channel uint16) [][]byte {
+	if rd.EmptyEOM {
+		pks := peer.Packetise(body, rd.Cuts, peer.BufResponse, channel, false)
+		return append(pks, peer.MakePacket(peer.BufResponse, peer.BufstatEOM, channel, uint8(len(pks)), nil))
+	}
+	return peer.Packetise(body, rd.Cuts, peer.BufResponse, channel, true)
+}
+
 func runRounds(p *roundsPlan, schedSeed uint64, replay []simrt.Choice, lenient, keepLog bool) (*roundsObs, *simrt.Outcome) {
 	cfg := p.Knobs.Config(schedSeed)
 	cfg.Replay, cfg.Lenient, cfg.KeepLog = replay, lenient, keepLog
@@ -476,12 +508,12 @@ func runRounds(p *roundsPlan, schedSeed uint64, replay []simrt.Choice, lenient, 
 			body = append(body, it.bytes()...)
 		}
 		if p.Rounds[ri].Truncated {
-			pks := peer.Packetise(body, p.Rounds[ri].Cuts, peer.BufResponse, m.Channel, true)
+			pks := roundPackets(p.Rounds[ri], body, m.Channel)
 			pr.SendPackets(pks[:len(pks)-1])
 			return
 		}
 		if p.Rounds[ri].Slow {
-			pks := peer.Packetise(body, p.Rounds[ri].Cuts, peer.BufResponse, m.Channel, true)
+			pks := roundPackets(p.Rounds[ri], body, m.Channel)
 			for i, pk := range pks {
 				d := time.Duration(0)
 				if len(pks) > 1 {
@@ -494,12 +526,12 @@ func runRounds(p *roundsPlan, schedSeed uint64, replay []simrt.Choice, lenient, 
 		if p.Rounds[ri].Poll {
 			// polling consumers get the packets one simulated millisecond apart, so that a poll can find the
 			// first packages while the rest of the response is still in flight
-			for i, pk := range peer.Packetise(body, p.Rounds[ri].Cuts, peer.BufResponse, m.Channel, true) {
+			for i, pk := range roundPackets(p.Rounds[ri], body, m.Channel) {
 				pr.Conn.DeliverAfter(time.Duration(i)*time.Millisecond, pk)
 			}
 			return
 		}
-		pks := peer.Packetise(body, p.Rounds[ri].Cuts, peer.BufResponse, m.Channel, true)
+		pks := roundPackets(p.Rounds[ri], body, m.Channel)
 		pks[len(pks)-1][1] |= byte(p.Rounds[ri].LastStatus)
 		pr.SendPackets(pks)
 	}
@@ -553,10 +585,11 @@ func runRounds(p *roundsPlan, schedSeed uint64, replay []simrt.Choice, lenient, 
 		}
 		addEnv := func() {
 			id := len(obs.envHooks)
+			obs.envHooks = append(obs.envHooks, -1) // the id is taken before the call: several tasks may register at once
 			err := ch.RegisterEnvChangeHooks(func(t tds.EnvChangeType, o, n string) {
 				obs.envCalls = append(obs.envCalls, hookCall{id, simrt.Record("env-hook", "", "", int64(id)), fmt.Sprintf("%d:%s:%s", t, n, o)})
 			})
-			obs.envHooks = append(obs.envHooks, simrt.Record("env-hook-registered", "", "", int64(id)))
+			obs.envHooks[id] = simrt.Record("env-hook-registered", "", "", int64(id))
 			if err != nil {
 				obs.setupErr = "RegisterEnvChangeHooks: " + err.Error()
 			}
@@ -568,6 +601,13 @@ func runRounds(p *roundsPlan, schedSeed uint64, replay []simrt.Choice, lenient, 
 			}
 			for i := 0; i < rd.EnvHooks; i++ {
 				addEnv()
+			}
+			if rd.RaceHooks > 0 {
+				var regs []*simrt.Task
+				for i := 0; i < rd.RaceHooks; i++ {
+					regs = append(regs, simrt.Spawn(fmt.Sprintf("register%d", i), func() { addEED(); addEnv() }))
+				}
+				simrt.Join(regs...)
 			}
 			// one context per round: a round that hangs must not starve the following ones
 			ctx, cancel := simrt.WithTimeout(context.Background(), 10*time.Second)
@@ -674,7 +714,7 @@ func runRounds(p *roundsPlan, schedSeed uint64, replay []simrt.Choice, lenient, 
 						see(pkg)
 						if calls == rd.StopAt {
 							calls++
-							return false, rd.cbErr()
+							return rd.ErrTrue, rd.cbErr()
 						}
 						calls++
 						return isFinal(pkg), nil
@@ -697,7 +737,7 @@ func runRounds(p *roundsPlan, schedSeed uint64, replay []simrt.Choice, lenient, 
 			}
 			if rd.Poll {
 				// the packets of this response were sent a millisecond apart: wait until the last one is in
-				simrt.Sleep(time.Duration(len(rd.Cuts)+2) * time.Millisecond)
+				simrt.Sleep(time.Duration(len(rd.Cuts)+3) * time.Millisecond)
 			}
 			if rd.Slow {
 				// the packets were spread over eight seconds from the request on: wait until the last one is in
@@ -1031,14 +1071,14 @@ func (c11) Run(plan interface{}, schedSeed uint64, replay []simrt.Choice, lenien
 	envRegRound := map[int]int{}
 	ne, nv := 0, 0
 	for ri, rd := range p.Rounds {
-		for i := 0; i < rd.EEDHooks; i++ {
+		for i := 0; i < rd.EEDHooks+rd.RaceHooks; i++ {
 			for conc[ne] {
 				ne++
 			}
 			eedRegRound[ne] = ri
 			ne++
 		}
-		for i := 0; i < rd.EnvHooks; i++ {
+		for i := 0; i < rd.EnvHooks+rd.RaceHooks; i++ {
 			envRegRound[nv] = ri
 			nv++
 		}
